@@ -48,6 +48,8 @@ PROPERTIES
   StepC_C16_Serializable
   StepC_C16_TxIdCommitOrder
   StepC_C16_LogIdCommitOrder
+  StepC_C16_Dense
+  StepC_C34_Serializable
   StepC_C09_LinearChain
   StepC_C12_Serializable
   Step_C11_ImportFaithful
